@@ -169,6 +169,75 @@ def run(program, rep, tier, sleep_only=False):
                     'is kept a lower bound of every deadline in the heap (at '
                     'each push, after each scan) is not modelled',
                     line=tst.lineno)
+    # a wake loop whose own test compares the timer with such a quantity
+    cached_wake = False
+    for m in todo_:
+        for wl in [n for n in ast.walk(m.node) if isinstance(n, ast.While)]:
+            if 'self._timer' not in norm(wl.test):
+                continue
+            other = sorted({a.attr for a in ast.walk(wl.test) if isinstance(
+                a, ast.Attribute) and isinstance(a.value, ast.Name)
+                and a.value.id == 'self' and a.attr not in known_attrs})
+            if other:
+                cached_wake = True
+            if other and not sleep_only:
+                rep.inconclusive(
+                    'C08.deadline', site, wl.test,
+                    f'the wake loop runs while `{norm(wl.test)}` holds, a '
+                    f'test that reads self.{other[0]}: whether that quantity '
+                    'equals the earliest deadline of the heap at every read '
+                    '(after each push, pop and rebuild) is not modelled',
+                    line=wl.test.lineno)
+    # ---- the head of the wait heap is its minimum only while the list is
+    # heap-ordered: between a rebuild of the list (assignment of a filtered
+    # copy) and heapify() nothing reads element [0], directly or through a
+    # helper of the processor
+    def _reads_head(stmt, depth=1):
+        for x in ast.walk(stmt):
+            if isinstance(x, ast.Subscript) and norm(x.value) == WQ \
+                    and isinstance(x.slice, ast.Constant) \
+                    and x.slice.value == 0 and isinstance(x.ctx, ast.Load):
+                return True
+            if depth and isinstance(x, ast.Call) and isinstance(
+                    x.func, ast.Attribute) and norm(x.func.value) == 'self' \
+                    and x.func.attr in cp.methods and any(
+                        _reads_head(s2, depth - 1)
+                        for s2 in cp.methods[x.func.attr].node.body):
+                return True
+        return False
+    for m in cp.methods.values():
+        for blk in [n for n in ast.walk(m.node)
+                    if isinstance(getattr(n, 'body', None), list)]:
+            for fld in ('body', 'orelse', 'finalbody'):
+                body = getattr(blk, fld, None)
+                if not isinstance(body, list):
+                    continue
+                dirty = None
+                for st in body:
+                    if not isinstance(st, ast.stmt):
+                        break
+                    if isinstance(st, ast.Expr) and isinstance(
+                            st.value, ast.Call) and (dotted(st.value.func)
+                                                     or '').endswith(
+                            'heapify') and st.value.args and norm(
+                                st.value.args[0]) == WQ:
+                        dirty = None
+                        continue
+                    if dirty is not None and _reads_head(st) \
+                            and not sleep_only:
+                        rep.bad('C08.deadline', m.where, st,
+                                'the head of the wait list is read as the '
+                                'earliest deadline between a rebuild of the '
+                                'list and heapify(): element [0] of the '
+                                'filtered copy is not its minimum when the '
+                                'removed entry was the head - a coroutine '
+                                'that is due earlier wakes late',
+                                line=st.lineno)
+                        dirty = None
+                    if isinstance(st, ast.Assign) and any(
+                            norm(t) in (WQ, f'{WQ}[:]') for t in st.targets) \
+                            and isinstance(st.value, (ast.ListComp, ast.Call)):
+                        dirty = st
     # ---- writes of the timer, whole class ----------------------------------
     n_w = 0
     from .util import methods_of, called_only_from
@@ -395,7 +464,8 @@ def run(program, rep, tier, sleep_only=False):
                 if d == 'heapq.heappop' and cn.args and norm(
                         cn.args[0]) == WQ:
                     open_pop = e
-                if d in (f'{AQ}.rotate',) and open_pop is not None:
+                if d in (f'{AQ}.rotate',) and open_pop is not None \
+                        and not cached_wake:
                     flag('deadline', open_pop.node,
                          'after this removal from the wait heap the wake '
                          'phase ends without looking at the new head: when '
